@@ -83,8 +83,13 @@ pub fn insert_src(tier: Tier) -> BoxedStrategy<InsertSrc> {
     // degenerate boundary sequences: one to four inserts made of empty keys and empty values
     let tiny_key = prop_oneof![3 => Just(Blob::Lit(vec![])), 1 => Just(Blob::Lit(vec![0])), 1 => Just(Blob::Lit(vec![b'k']))];
     let tiny_val = prop_oneof![3 => Just(Blob::Lit(vec![])), 1 => Just(Blob::Lit(vec![0])), 1 => Just(Blob::Lit(vec![b'v', b'v']))];
+    // runs of zero-size entries inside chunks large enough for the real sort algorithms (> 20 entries): entries of
+    // size 0 do not advance the buffer's byte offsets, so anything keyed on offsets sees them as "the same" entry
+    let zk = prop_oneof![5 => Just(Blob::Lit(vec![])), 2 => Just(Blob::Lit(vec![b'k'])), 1 => (0u8..4).prop_map(|i| Blob::Lit(vec![b'k', i]))];
+    let zv = prop_oneof![5 => Just(Blob::Lit(vec![])), 2 => vec(any::<u8>(), 1..=5).prop_map(Blob::Lit), 1 => Just(Blob::Lit(vec![0]))];
     prop_oneof![
         2 => vec((tiny_key, tiny_val), 1..=4).prop_map(InsertSrc::List),
+        2 => vec((zk, zv), 21..=90).prop_map(InsertSrc::List),
         3 => vec((dup_key(), ins_val()), 0..=8).prop_map(InsertSrc::List),
         4 => vec((dup_key(), ins_val()), 9..=60).prop_map(InsertSrc::List),
         2 => vec((dup_key(), ins_val()), 61..=max).prop_map(InsertSrc::List),
